@@ -4,7 +4,7 @@ Monitor: every read / write through a key on the real indexers is compared with 
 names from the chemical list and the group table only (no caches), on a dense copy of the data; lookup floods push
 thousands of distinct keys through the bounded caches while an IndexCacheProbe counts evictions.
 """
-import itertools, random
+import itertools, pickle, random
 import numpy as np
 import thermosteam as tmo
 from thermosteam.exceptions import UndefinedChemicalAlias, UndefinedPhase
@@ -21,6 +21,11 @@ RULE = ('chemical sets of 1-8 (pool of 16) with 2 user aliases per chemical and 
         'get_flow / set_flow / get_data / set_data; aliases and groups defined in the middle of a history (caches warm) and alias clashes (rejected, tables unchanged); read keys with repeated chemicals and '
         'overlapping groups; further entry points (get_index, available_indices, chemicals[name], in, kwarray/array/iarray, ms[phase].imol, get_phase, to_material_indexer); undefined names / phases '
         'interleaved in the history; single-phase MultiStream; size-1 sets with a group. '
+        'Added (sibling sets): 4 further chemical sets per case over the same chemicals - unpickled / compiled from copied chemical objects (own chemical objects), compiled again in the same order, '
+        'in another order, with one chemical more or less - each defining the same group names with other members / compositions (or not at all) and one alias that names another chemical; the same '
+        'key (mostly containing a contested name) is read or written through every set in random order via MultiStream.imol[phase, key] / [key] / [..., key], imass, a second MultiStream on another '
+        'phase set, Stream.imol / imass, a brand-new MolarFlowIndexer.from_data, isplit, get_index, and the primary flows re-based onto the sibling (indexer.reset_chemicals, Stream.copy(thermo=)); every set '
+        'is judged against its own tables; keys undefined in a set are documented refusals. Added (regroup): a group name defined again with other members while the caches hold it, read / written, then restored. '
         'non-trivial = key addresses >=2 positions or a group, data has >=2 non-zero entries; distinct = hash of (set, key form, key)')
 MIN_NONTRIVIAL = {'quick': 2000, 'thorough': 50000}
 ASSUMPTIONS = ['names of a chemical are taken from the Chemical object (ID, CAS, aliases, formula, common_name, iupac_name) with the documented rule that a name claimed by two chemicals of the set is dropped',
@@ -32,7 +37,9 @@ def required(tier):
     return ['read', 'write', 'group-write', 'flood', 'evictions:chemicals-cache', 'evictions:material-cache', 'mix-interleaved', 'read:multi-phase', 'names-one-position', 'fresh-twin', 'expand',
             'split', 'split:group-write', 'ellipsis-write', 'ellipsis-write:S', 'ellipsis-write:M-phase-only', 'ellipsis-write:M-phase-ellipsis', 'ellipsis-write:M-all-ellipsis', 'value:ndarray', 'value:sparse',
             'write:zero-to-group', 'write:Mmass', 'vol', 'vol:write', 'unit-access', 'late-alias', 'late-group', 'alias-clash', 'read:overlap', 'entry-points', 'bad-key', 'bad-key:then-read',
-            'single-phase-multistream', 'size-1-set-with-group']
+            'single-phase-multistream', 'size-1-set-with-group',
+            'sibling', 'sibling:recompiled', 'sibling:copied', 'sibling:pickled', 'sibling:permuted', 'sibling:extended', 'sibling:primary', 'sibling:contested-group', 'sibling:contested-alias',
+            'sibling:write', 'sibling:other-phase-set', 'sibling:raw-indexer', 'sibling:rebased', 'sibling:undefined-here', 'regroup']
 
 
 class Setup:
@@ -174,7 +181,253 @@ class Probe:
         self.keys = now; self.maxlen = max(self.maxlen, len(now))
 
 
+# ---------------------------------------------------------------------------------------------------------------------
+# added: sibling chemical sets (several separately compiled sets over the same chemicals, each with its own groups and
+# aliases) whose indexers are read and written through the same keys in interleaved order
+
+def name_tables(chems):
+    """names -> position of an already compiled set, from the chemical objects only (the rule of Setup.__init__)."""
+    cand = []
+    for c in chems:
+        names = {c.ID, c.CAS}
+        extra = set(c.aliases) | {c.common_name, c.formula} | set(c.iupac_name if isinstance(c.iupac_name, (tuple, list)) else [c.iupac_name])
+        cand.append((names, {n for n in extra if n}))
+    counts = {}
+    for names, extra in cand:
+        for n in names | extra: counts[n] = counts.get(n, 0) + 1
+    pos = {}; table = []
+    for p, (names, extra) in enumerate(cand):
+        mine = sorted(n for n in names | extra if counts[n] == 1 or n in names)
+        table.append(mine)
+        for n in mine: pos[n] = p
+    return pos, table
+
+
+class AdoptedSetup(Setup):
+    """positional model tables for a compiled set that was built elsewhere (unpickled, or compiled from copied chemical objects);
+    inherited = the group table it already carries (name -> {'idx', 'mol', 'wt'})."""
+    def __init__(self, chems, inherited=None):
+        self.chems = chems
+        self.thermo = tmo.Thermo(chems)
+        self.ids = list(chems.IDs)
+        self.pos, self.names = name_tables(chems)
+        self.groups = {}
+        for name, g in (inherited or {}).items():
+            mol = np.array(g['mol'], float); wt = np.array(g['wt'], float)
+            self.groups[name] = {'idx': list(g['idx']), 'mol': mol / mol.sum(), 'wt': wt / wt.sum()}
+
+
+class World:
+    """one compiled chemical set with its positional model, a single-phase stream, two multi-phase streams on different phase sets, a split,
+    and dense copies of their data."""
+    def __init__(self, kind, S, st, ms, D1, D2, ph, ms2, D3, ph2, sp, SP):
+        self.kind, self.S, self.st, self.ms, self.D1, self.D2, self.ph, self.ms2, self.D3, self.ph2, self.sp, self.SP = kind, S, st, ms, D1, D2, ph, ms2, D3, ph2, sp, SP
+
+    @staticmethod
+    def second_stream(S, phases2, rng):
+        n = len(S.ids)
+        ms2 = tmo.MultiStream(None, phases=tuple(phases2), thermo=S.thermo)
+        D3 = np.array([[round(10 ** rng.uniform(-2, 3), 4) if rng.random() < 0.65 else 0.0 for _ in range(n)] for _ in ms2.phases])
+        for i in range(len(ms2.phases)): ms2.imol.data.rows[i][:] = D3[i]
+        SP = np.array([round(rng.random(), 3) if rng.random() < 0.8 else 0.0 for _ in range(n)])
+        return ms2, D3, list(ms2.phases), S.chems.isplit(SP.tolist()), SP
+
+    @classmethod
+    def fresh(cls, kind, S, phases, phases2, rng):
+        n = len(S.ids)
+        st = tmo.Stream(None, thermo=S.thermo)
+        ms = tmo.MultiStream(None, phases=tuple(phases), thermo=S.thermo)
+        D1 = np.array([round(10 ** rng.uniform(-2, 3), 4) if rng.random() < 0.75 else 0.0 for _ in range(n)])
+        D2 = np.array([[round(10 ** rng.uniform(-2, 3), 4) if rng.random() < 0.65 else 0.0 for _ in range(n)] for _ in ms.phases])
+        st.imol.data[:] = D1
+        for i in range(len(ms.phases)): ms.imol.data.rows[i][:] = D2[i]
+        return cls(kind, S, st, ms, D1, D2, list(ms.phases), *cls.second_stream(S, phases2, rng))
+
+
+def gen_world_groups(rng, ids, names):
+    """group definitions for a sibling set: the given names, members and compositions drawn anew (groups may overlap; a name may be left out)."""
+    out = []
+    for nm in names:
+        if rng.random() < 0.15: continue
+        m = rng.sample(ids, rng.randrange(1, min(4, len(ids)) + 1))
+        comp = None if rng.random() < 0.4 else [round(rng.uniform(0.1, 2), 3) for _ in m]
+        out.append({'name': nm, 'members': m, 'comp': comp, 'wt': rng.random() < 0.5})
+    return out
+
+
+def flat_positions(r, n):
+    if r[0] == 'all': return list(range(n))
+    if r[0] == 'scalar': return [r[1]]
+    if r[0] == 'group': return list(r[1])
+    return [j for i in r[1] for j in (i if isinstance(i, list) else [i])]
+
+
+def key_kind(r):
+    return {'all': 'ellipsis', 'scalar': 'chemical', 'group': 'group'}.get(r[0]) or ('nested' if any(isinstance(i, list) for i in r[1]) else 'array')
+
+
+def model_write(S, key, r, val, basis):
+    """positions -> value written by `indexer[key] = val` (a scalar given to a group is distributed by the group's composition of the basis)."""
+    out = {}
+    if r[0] == 'scalar': out[r[1]] = val
+    elif r[0] == 'group':
+        vals = (val * S.groups[key][basis]) if not isinstance(val, list) else val
+        for i, v in zip(r[1], vals): out[i] = v
+    else:
+        for m, i in enumerate(r[1]):
+            v = val if not isinstance(val, list) else val[m]
+            if isinstance(i, list):
+                for ii, vv in zip(i, v * S.groups[key[m]][basis]): out[ii] = vv
+            else: out[i] = v
+    return out
+
+
+def split_matches(got, r, SP):
+    """SplitIndexer reads: a group addresses its members (no sum)."""
+    if r[0] == 'all': return same(got, SP, rel=0)
+    if r[0] in ('scalar', 'group'): return same(got, SP[r[1]], rel=0)
+    if len(got) != len(r[1]): return False
+    return all(same(np.asarray(g_, float), SP[i], rel=0) for g_, i in zip(got, r[1]))
+
+
+def gen_contested_key(rng, S, contested, write):
+    """a key in the vocabulary of S that mostly contains a name which the sibling sets resolve differently (alone, or inside a tuple)."""
+    n = len(S.ids)
+    c = [nm for nm in contested if nm in S.groups or nm in S.pos]
+    if not c or rng.random() < 0.2: return gen_key(rng, S, write=write)
+    nm = rng.choice(c)
+    if rng.random() < 0.35: return nm
+    used = set(S.groups[nm]['idx']) if nm in S.groups else {S.pos[nm]}
+    key = [nm]
+    for p in rng.sample(range(n), min(n, rng.randrange(1, 4))):
+        if p in used: continue
+        key.insert(rng.randrange(len(key) + 1), rng.choice(S.names[p])); used.add(p)
+    return key
+
+
+SIB_ACCESS = ['M-phase'] * 4 + ['M-sum', 'M-all', 'M-mass', 'M2-phase', 'M2-phase', 'S', 'S-mass', 'raw', 'raw', 'split', 'get_index', 'rebased-M', 'rebased-S']
+SIB_WRITABLE = ('M-phase', 'M-all', 'M-mass', 'M2-phase', 'S', 'S-mass', 'raw')
+
+
+def sibling_access(rec, rng, W, P, key, as_list, acc, write, vk, hint, setsig, tags):
+    """one read (or write-then-read) through `key` on an indexer of world W, judged against W's own positional model."""
+    S_ = W.S; n_ = len(S_.ids); k = to_key(key, as_list)
+    if acc.startswith('rebased') and (W is P or not set(P.S.ids) <= set(S_.ids)): acc = 'M-phase'
+    try: r = S_.resolve(key)
+    except KeyError: r = None
+    if r is None or r[0] == 'all' or acc not in SIB_WRITABLE: write = False
+    elif write:
+        fp = flat_positions(r, n_)
+        if len(set(fp)) != len(fp): write = False          # a write key must not address a position twice
+    MW = S_.chems.MW
+    mass = acc in ('M-mass', 'S-mass')
+    phs = None; molar = None
+    try:
+        if acc in ('M-phase', 'M-sum', 'M-all', 'M-mass'): molar = W.ms.imol; ix = W.ms.imass if mass else molar; D = W.D2; phs = W.ph
+        elif acc == 'M2-phase': molar = ix = W.ms2.imol; D = W.D3; phs = W.ph2
+        elif acc in ('S', 'S-mass'): molar = W.st.imol; ix = W.st.imass if mass else molar; D = W.D1
+        elif acc == 'raw':
+            D = W.D2.copy(); phs = W.ph
+            molar = ix = tmo.indexer.MolarFlowIndexer.from_data(D.copy(), tuple(phs), S_.chems)      # a brand-new indexer object on this set
+        elif acc == 'rebased-M':
+            phs = P.ph; D = np.zeros((len(phs), n_))
+            for j, i in enumerate(P.S.ids): D[:, S_.pos[i]] = P.D2[:, j]
+            molar = ix = P.ms.imol.copy(); ix.reset_chemicals(S_.chems)                               # the primary's flows re-based onto this set
+        elif acc == 'rebased-S':
+            D = np.zeros(n_)
+            for j, i in enumerate(P.S.ids): D[S_.pos[i]] = P.D1[j]
+            molar = ix = P.st.copy(None, thermo=S_.thermo).imol
+        elif acc == 'split': ix = W.sp; D = W.SP
+        else: ix = None; D = None
+        row = hint % len(phs) if phs else None
+        if acc in ('M-phase', 'M-mass', 'M2-phase', 'raw', 'rebased-M'): fk = (phs[row], k); shape = 'row'
+        elif acc == 'M-all': fk = (..., k); shape = 'rows'
+        elif acc == 'M-sum': fk = k; shape = 'sum'
+        else: fk = k; shape = 'vector'
+        if r is None:
+            # the key is not defined in this set (it belongs to a sibling): the documented answer is UndefinedChemicalAlias, whatever was looked up elsewhere
+            try:
+                if acc == 'get_index': S_.chems.get_index(k)
+                else: ix[fk]
+                rec.refuse('key of a sibling set that is undefined in this set was accepted without error (not judged)')
+            except UndefinedChemicalAlias: rec.refuse('key of a sibling set that is undefined in this set (UndefinedChemicalAlias; not judged)'); rec.hit('sibling:undefined-here')
+            except Exception as e: rec.refuse(f'key of a sibling set that is undefined in this set rejected through {type(e).__name__} (not judged)')
+            return
+        kk = key_kind(r)
+
+        def expected():
+            f = MW if mass else 1.0
+            if shape == 'row': return model_read(S_, D[row] * f, key)
+            if shape == 'sum': return model_read(S_, D.sum(0), key)
+            if shape == 'rows': return (D * f).copy() if r[0] == 'all' else np.array([model_read(S_, D[i] * f, key) for i in range(len(phs))])
+            return model_read(S_, D * f, key)
+
+        if acc == 'get_index':
+            gi = S_.chems.get_index(k); exp = slice(None) if r[0] == 'all' else r[1]
+            rec.check(gi == exp, 'sibling-set', f'{W.kind}/get_index/read/{kk}', f'get_index({key!r}) on the {W.kind} set = {gi!r} but its own tables give {exp!r}')
+        elif acc == 'split':
+            got = ix[k]
+            rec.check(split_matches(got, r, D), 'sibling-set', f'{W.kind}/split/read/{kk}', f'split[{key!r}] on the {W.kind} set = {got!r} but its own tables give positions {r[1:]!r} of {D.tolist()}')
+        elif not write:
+            got = ix[fk]; exp = expected()
+            gota = got.to_array() if hasattr(got, 'to_array') else got
+            rec.check(same(gota, exp, rel=1e-12), 'sibling-set', f'{W.kind}/{acc}/read/{kk}', f'{acc} read of {key!r} on the {W.kind} set = {np.asarray(gota).tolist()} but its own positional model gives {np.asarray(exp).tolist()}')
+        else:
+            fv = lambda: round(10 ** rng.uniform(-2, 3), 4) if rng.random() < 0.9 else 0.0
+            if r[0] == 'scalar' or vk == 'scalar': val = round(10 ** rng.uniform(-2, 3), 4)
+            else: val = [fv() for _ in r[1]]
+            wval = np.array(val, float) if (isinstance(val, list) and rng.random() < 0.3) else val
+            ix[fk] = wval
+            for i, v in model_write(S_, key, r, val, 'wt' if mass else 'mol').items():
+                vv = v / MW[i] if mass else v
+                if shape == 'row': D[row, i] = vv
+                elif shape == 'rows': D[:, i] = vv
+                else: D[i] = vv
+            got = dense_of(molar)
+            form = 'scalar-value' if not isinstance(val, list) else 'array-value'
+            okd = rec.check(same(got, D, rel=1e-11), 'sibling-set', f'{W.kind}/{acc}/write-data/{kk}/{form}', f'after the {acc} write of {val!r} at {key!r} on the {W.kind} set: data {np.asarray(got).tolist()} but its own positional model gives {D.tolist()}')
+            back = ix[fk]; eback = expected()
+            backa = back.to_array() if hasattr(back, 'to_array') else back
+            rec.check(same(backa, eback, rel=1e-11), 'sibling-set', f'{W.kind}/{acc}/read-back/{kk}/{form}', f'after the {acc} write of {val!r} at {key!r} on the {W.kind} set: read-back {np.asarray(backa).tolist()} expected {np.asarray(eback).tolist()}')
+            if not okd: D[...] = got
+            e = sparse_invariant(molar.data)
+            rec.check(e is None, 'invariant', 'sibling', f'sparse invariant after a write on a sibling set: {e}')
+            rec.hit('sibling:write')
+    except Exception as e:
+        rec.exception('sibling-set', e, what=f'{acc} {"write" if write else "read"} of {key!r} on the {W.kind} set raised {type(e).__name__}: {str(e)[:150]}')
+        W.D1[...] = dense_of(W.st.imol); W.D2[...] = dense_of(W.ms.imol); W.D3[...] = dense_of(W.ms2.imol)
+        return
+    rec.hit('sibling'); rec.hit('sibling:' + W.kind)
+    names = [key] if isinstance(key, str) else list(key)
+    if any(nm in tags['groups'] for nm in names): rec.hit('sibling:contested-group')
+    if tags['alias'] in names: rec.hit('sibling:contested-alias')
+    if acc == 'M2-phase': rec.hit('sibling:other-phase-set')
+    if acc == 'raw': rec.hit('sibling:raw-indexer')
+    if acc.startswith('rebased'): rec.hit('sibling:rebased')
+    if r[0] in ('group', 'array'): rec.mark_nontrivial(case_hash((setsig, 'SIB', W.kind, acc, bool(write), key if isinstance(key, str) else tuple(key))))
+
+
+def release(chems):
+    """harness hygiene after a case: the library keeps every compiled set (and every (phases, set) lookup table) alive in class-level registries;
+    the sibling sets of a finished case are dropped from them so that long runs do not accumulate memory."""
+    try:
+        caches = tmo.indexer.MaterialIndexer._index_caches
+        for k_ in [k_ for k_ in list(caches) if k_[1] is chems]: caches.pop(k_, None)
+        reg = tmo.CompiledChemicals._cache
+        for k_ in [k_ for k_, v_ in list(reg.items()) if v_ is chems]: reg.pop(k_, None)
+    except Exception: pass
+
+
 def run_case(case, rec):
+    cleanup = []
+    try: _run_case(case, rec, cleanup)
+    finally:
+        for f in reversed(cleanup):
+            try: f()
+            except Exception: pass
+
+
+def _run_case(case, rec, cleanup):
     rec.begin_case(case)
     rng = random.Random(case['seed'])
     ids, groups = case['ids'], case['groups']
@@ -199,6 +452,13 @@ def run_case(case, rec):
     if n == 1 and S.groups: rec.hit('size-1-set-with-group')
     p_chem = Probe(S.chems._index_cache); p_mat = Probe(ms.imol._index_cache)
     setsig = (tuple(ids), tuple(g['name'] for g in groups))
+    sib = {}            # sibling chemical sets of this case (built at the first 'siblings' operation, kept for the rest of the history)
+    gdefs = {}          # group definitions as given to define_group (for the 'regroup' operation)
+    for g in groups:
+        members_ = [m for m in g['members'] if m in ids]
+        if not members_: continue
+        comp_ = g.get('comp'); comp_ = [comp_[g['members'].index(m)] for m in members_] if comp_ else None
+        gdefs[g['name']] = {'name': g['name'], 'members': members_, 'comp': comp_, 'wt': g.get('wt', False)}
 
     def phase_forms(ph):
         forms = [ph]
@@ -758,6 +1018,113 @@ def run_case(case, rec):
                 rec.check(same(dense_of(st.imol), snap1, rel=0) and same(dense_of(ms.imol), snap2, rel=0), 'bad-key:then-read', 'data-untouched', f'a rejected lookup ({form}) changed the flow data')
                 if check_read_single(good, False, 'bad-key:then-read') and check_read_multi(good, False, 'phase', rng.choice(phase_forms(rng.choice(mphases))), 'bad-key:then-read'): pass
                 p_chem.look(); p_mat.look()
+        elif t == 'siblings':
+            # several separately compiled chemical sets over the same chemicals (same order / own chemical objects / another order / one chemical more or
+            # less), each with its own definition of the same group names and of one alias; the same key is looked up through indexers of every set in a
+            # random order: every set must answer from its own tables, whatever was looked up through a sibling before
+            if 'worlds' not in sib:
+                try:
+                    phases2 = rng.choice([q for q in ('lg', 'gls', 'lL', 'sl', 'glLs', 'l', 'g', 'gs') if set(q) != set(mphases)])
+                    gnames = sorted(S.groups) + (['GrpS'] if (rng.random() < 0.7 or not S.groups) else [])
+                    worlds = []
+                    # (1) own chemical objects (unpickled set, or a set compiled from copies of the chemical objects), made before the contested alias exists
+                    if rng.random() < 0.35:
+                        own = AdoptedSetup(pickle.loads(pickle.dumps(S.chems)), inherited=S.groups); okind = 'pickled'
+                    else:
+                        cc = tmo.Chemicals([c.copy(c.ID, CAS=c.CAS) for c in S.chems]); cc.compile()
+                        own = AdoptedSetup(cc); okind = 'copied'
+                    cleanup.append(lambda c_=own.chems: release(c_))
+                    tag = 'shared_tag'; sib['tag'] = None
+                    if n >= 2:
+                        fresh_tag = tag not in S.pos
+                        p = rng.randrange(n) if fresh_tag else S.pos[tag]
+                        q = (p + rng.randrange(1, n)) % n
+                        if fresh_tag:
+                            S.add_alias(ids[p], tag); later.append(('alias', (ids[p], tag)))
+                            cleanup.append(lambda c_=S.chems.tuple[p]: c_.aliases.discard(tag))      # the chemical objects are shared by later cases
+                        try: own.add_alias(ids[q], tag); sib['tag'] = tag
+                        except ValueError: pass
+                    for g in gen_world_groups(rng, own.ids, gnames): own.add_group(g)
+                    worlds.append(World.fresh(okind, own, mphases, phases2, rng))
+                    # (2) the same chemical objects compiled again in the same order  (3) in another order  (4) one chemical more or less
+                    defs = [('recompiled', list(ids))]
+                    if n >= 2:
+                        perm = list(ids); rng.shuffle(perm)
+                        if perm == list(ids): perm = perm[1:] + perm[:1]
+                        defs.append(('permuted', perm))
+                    if n >= 8 or (n >= 2 and rng.random() < 0.5):
+                        drop = rng.choice(ids); defs.append(('extended', [i for i in ids if i != drop]))
+                    else: defs.append(('extended', list(ids) + [rng.choice([i for i in POOL if i not in ids])]))
+                    for kind_, wids in defs:
+                        w_ = Setup(wids, gen_world_groups(rng, wids, gnames))
+                        cleanup.append(lambda c_=w_.chems: release(c_))
+                        worlds.append(World.fresh(kind_, w_, mphases, phases2, rng))
+                    sib['P2'] = World.second_stream(S, phases2, rng)
+                    sib['worlds'] = worlds
+                except Exception as e:
+                    rec.exception('sibling-set', e, what=f'building sibling chemical sets / their streams raised {type(e).__name__}: {str(e)[:150]}'); continue
+            P = World('primary', S, st, ms, D1, D2, mphases, *sib['P2'])
+            allw = [P] + sib['worlds']
+            gsets = {}
+            for W in allw:
+                for nm, g_ in W.S.groups.items(): gsets.setdefault(nm, []).append(frozenset(W.S.ids[i] for i in g_['idx']))
+            contested = sorted(gsets) + ([sib['tag']] if sib['tag'] else [])
+            tags = {'groups': {nm for nm, v in gsets.items() if len(set(v)) >= 2}, 'alias': sib['tag']}
+            for _ in range(op['n']):
+                speaker = rng.choice(allw)
+                write = rng.random() < 0.4
+                key = gen_contested_key(rng, speaker.S, contested, write)
+                as_list = rng.random() < 0.3 and not isinstance(key, str)
+                acc = rng.choice(SIB_ACCESS); vk = rng.choice(['scalar', 'list']); hint = rng.randrange(12)
+                order = list(allw); rng.shuffle(order)
+                for W in order: sibling_access(rec, rng, W, P, key, as_list, acc, write, vk, hint, setsig, tags)
+                p_chem.look(); p_mat.look()
+        elif t == 'regroup':
+            # an existing group name is defined again with other members while the caches are warm, used, and then given its first definition back
+            gd = dict(gdefs)
+            for kind_, a_ in later:
+                if kind_ == 'group': gd[a_['name']] = a_
+            if not gd or n < 2: rec.hit('regroup:not-applicable'); continue
+            name = rng.choice(sorted(gd)); old = gd[name]
+            for _try in range(8):
+                members = rng.sample(ids, rng.randrange(1, min(3, n) + 1))
+                if set(members) != set(old['members']): break
+            else: continue
+            new = {'name': name, 'members': members, 'comp': None if rng.random() < 0.4 else [round(rng.uniform(0.1, 2), 3) for _ in members], 'wt': rng.random() < 0.5}
+            ph = rng.choice(mphases)
+            outside = [i for i in ids if i not in old['members'] and i not in members]
+            keys = [name] + ([[outside[0], name]] if outside else [])
+
+            def sweep(clause):
+                for key in keys:
+                    check_read_single(key, False, clause); check_read_multi(key, False, 'phase', ph, clause); check_read_multi(key, False, 'sum', ph, clause)
+                try:
+                    gi = S.chems.get_index(name)
+                    rec.check(gi == S.groups[name]['idx'], clause, 'get_index', f'get_index({name!r}) = {gi!r} but the group is defined as positions {S.groups[name]["idx"]}')
+                except Exception as e: rec.exception(clause, e, what=f'get_index of a group raised {type(e).__name__}: {str(e)[:120]}')
+
+            sweep('group-redefined:before')        # the very same lookups are made before, so that the caches hold them
+            try:
+                S.add_group(new)
+            except Exception as e:
+                rec.exception('group-redefined', e, what=f'defining group {name!r} again raised {type(e).__name__}: {str(e)[:150]}'); continue
+            sweep('group-redefined')
+            v = round(10 ** rng.uniform(-1, 3), 4)
+            try:
+                st.imol[name] = v          # a scalar is distributed by the composition of the group as it is defined now
+                for i, x in zip(S.groups[name]['idx'], v * S.groups[name]['mol']): D1[i] = x
+                okd = rec.check(same(dense_of(st.imol), D1, rel=1e-11), 'group-redefined', 'single-phase/write-data/scalar-value',
+                                f'after group {name!r} was defined again as {members}, imol[{name!r}] = {v} gives data {dense_of(st.imol).tolist()} but the positional model gives {D1.tolist()}')
+                if not okd: D1[:] = dense_of(st.imol)
+            except Exception as e:
+                rec.exception('group-redefined', e, what=f'scalar write to a group that was defined again raised {type(e).__name__}: {str(e)[:150]}'); D1[:] = dense_of(st.imol)
+            try:
+                S.add_group(old)
+            except Exception as e:
+                rec.exception('group-redefined:restored', e, what=f'giving group {name!r} its first definition back raised {type(e).__name__}: {str(e)[:150]}'); continue
+            sweep('group-redefined:restored')
+            rec.hit('regroup')
+            p_chem.look(); p_mat.look()
     rec.hit('evictions:chemicals-cache', p_chem.evictions)
     rec.hit('evictions:material-cache', p_mat.evictions)
     rec.notes.setdefault('max_cache_len_seen', {})
@@ -778,6 +1145,11 @@ def gen_case(rng, tier, big):
         op = {'t': t, 'n': rng.randrange(3, 15)}
         if t == 'define': op['what'] = rng.choice(['alias', 'group', 'clash'])
         ops.insert(rng.randrange(1, len(ops) + 1), op)
+    # added: sibling chemical sets over the same chemicals (several operations per case so that their histories interleave with everything else) and
+    # groups defined again mid-history
+    for _ in range(rng.randrange(0, 4)):
+        t = rng.choices(['siblings', 'regroup'], [3, 1])[0]
+        ops.insert(rng.randrange(1, len(ops) + 1), {'t': t, 'n': rng.randrange(3, 15)})
     if big and len(ids) >= 5:
         nflood = 700 if tier == 'quick' else 3000
         ops.insert(rng.randrange(1, len(ops)), {'t': 'flood', 'tgt': 'S', 'n': nflood})
